@@ -2,6 +2,7 @@
 
 import shutil
 import os
+import tempfile
 
 import json
 from hashlib import sha1
@@ -276,7 +277,23 @@ def _copy_installed_folder_to_cache(cache_folder, sub_folder=""):
         cache_name = os.path.join(cache_folder, basename)
         install_name = os.path.join(source_folder, basename)
         if not os.path.isdir(install_name) and not os.path.exists(cache_name):
-            shutil.copy(install_name, cache_name)
+            _safe_copy_to_folder(install_name, cache_name)
+
+
+def _safe_copy_to_folder(source_filename, dest_filename):
+    """ Copy a file under a unique temporary name in the destination folder, then rename it into place.
+
+    A reader or an interrupted copy never leaves a partially written file under the final name.
+    """
+    dest_folder, basename = os.path.split(dest_filename)
+    file_handle, temp_filename = tempfile.mkstemp(prefix=basename + ".", suffix=".tmp", dir=dest_folder)
+    os.close(file_handle)
+    try:
+        shutil.copy(source_filename, temp_filename)
+        os.replace(temp_filename, dest_filename)
+    except OSError:
+        os.remove(temp_filename)
+        raise
 
 
 def _check_if_url(hed_xml_or_url):
